@@ -650,6 +650,12 @@ class SymEval:
     def st_For(self, st, frame):
         if self._flag_loop(st, frame):
             return
+        en = _manual_counter_as_enumerate(st, frame)
+        if en is not None:
+            f_, after = en
+            self.st_For(f_, frame)
+            self.exec_stmt(after, frame)
+            return
         it = self.eval(st.iter, frame)
         if it[0] in ("tuple", "list") and len(it[1]) <= 16 and not any(x[0] == "star" for x in it[1]) and not st.orelse \
                 and not any(isinstance(n, (ast.Break, ast.Continue)) for n in ast.walk(st)):
@@ -1286,6 +1292,18 @@ class SymEval:
                 (f or frame).env[e.func.value.id] = new
                 self.emit("local_append", e.func.value.id, args[0], e, frame, recv=recv)
                 return T.NONE
+        # in-place reordering of a local list: x.sort(key=..) is x = sorted(x, key=..); x.reverse() is x = x[::-1]
+        if method in ("sort", "reverse") and isinstance(e.func.value, ast.Name) and recv is not None and not args and frame.lookup(e.func.value.id) is recv \
+                and (recv[0] in ("comp", "list", "accum") or (recv[0] == "call" and recv[1] in ("sorted", "list"))) and (method == "sort" or not kwargs):
+            if method == "sort":
+                new = self.call(T.sym("sorted"), [recv], kwargs, e, frame)
+            else:
+                new = ("slice", recv, None, None, T.const(-1))
+            f = frame
+            while f is not None and e.func.value.id not in f.env:
+                f = f.parent
+            (f or frame).env[e.func.value.id] = new
+            return T.NONE
         return self.call(fterm, args, kwargs, e, frame, recv=recv, method=method)
 
     def _callable_leaf(self, f: Term) -> bool:
@@ -2049,6 +2067,35 @@ def _counter_while_as_for(st: ast.While, frame):
     ast.copy_location(f, st)
     ast.fix_missing_locations(f)
     return f
+
+
+def _manual_counter_as_enumerate(st: ast.For, frame):
+    """`i = c; for x in xs: body; i += 1` (the increment the last statement of the body, i not assigned elsewhere in it, no continue)
+    is `for i, x in enumerate(xs, c): body`, followed by `i = c + len(xs)`.  Returns (the for loop, the assignment after it) or None."""
+    if st.orelse or len(st.body) < 2:
+        return None
+    last = st.body[-1]
+    if not (isinstance(last, ast.AugAssign) and isinstance(last.target, ast.Name) and isinstance(last.op, ast.Add) and isinstance(last.value, ast.Constant) and last.value.value == 1):
+        return None
+    i = last.target.id
+    if any(isinstance(n, ast.Name) and n.id == i for n in ast.walk(st.target)) or any(isinstance(n, ast.Name) and n.id == i for n in ast.walk(st.iter)):
+        return None
+    body = st.body[:-1]
+    for n in [x for s_ in body for x in ast.walk(s_)]:
+        if isinstance(n, (ast.Continue, ast.Break)) or (isinstance(n, ast.Name) and n.id == i and isinstance(n.ctx, (ast.Store, ast.Del))):
+            return None
+    pre = frame.lookup(i)
+    c = T.const_value(pre) if pre is not None else None
+    if c is None or c.denominator != 1:
+        return None
+    en = ast.Call(func=ast.Name(id="enumerate", ctx=ast.Load()), args=[st.iter] + ([ast.Constant(value=int(c))] if int(c) != 0 else []), keywords=[])
+    f = ast.For(target=ast.Tuple(elts=[ast.Name(id=i, ctx=ast.Store()), st.target], ctx=ast.Store()), iter=en, body=body, orelse=[])
+    after = ast.Assign(targets=[ast.Name(id=i, ctx=ast.Store())],
+                       value=ast.BinOp(left=ast.Constant(value=int(c)), op=ast.Add(), right=ast.Call(func=ast.Name(id="len", ctx=ast.Load()), args=[st.iter], keywords=[])))
+    for n_ in (f, after):
+        ast.copy_location(n_, st)
+        ast.fix_missing_locations(n_)
+    return f, after
 
 
 def _descending_while_as_for(st: ast.While, frame):
